@@ -1062,7 +1062,8 @@ def project(case, obs):
 class Gen(object):
     def __init__(self, rng, depth=4, width=4, p_raise=0.15, p_typed=0.3, p_fault_ser=0.0, p_handoff=0.08,
                  p_reenter=0.05, p_tb=0.05, p_finish_again=0.05, base_only=0.3, sr=0.15, p_try=0.15,
-                 styles=("with", "with", "ctx", "run"), p_actlog=0.08, p_task=0.08, p_raw=0.0, p_hostile=0.0):
+                 styles=("with", "with", "ctx", "run"), p_actlog=0.08, p_task=0.08, p_raw=0.0, p_hostile=0.0,
+                 p_finish_inside=0.0):
         self.rng = rng
         self.__dict__.update(locals())
         self.next_h = 0
@@ -1170,6 +1171,15 @@ class Gen(object):
 
     def stmt(self, depth, enclosing, c):
         rng = self.rng
+        if rng.random() < self.p_raw:
+            t = rng.randrange(10, 16)
+            if rng.random() < 0.6:
+                decl, logged = self.typed_fields(32, 40)
+            else:
+                decl, logged = None, self.fields(3, 32, 40)
+            if rng.random() < 0.9:
+                logged = logged + [[5, {"t": t}]]
+            return ["rawwrite", t, logged, decl]
         r = rng.random()
         if depth > 0 and r < 0.45:
             h = self.new_h()
@@ -1187,6 +1197,9 @@ class Gen(object):
             fs = fs + [[19, {"i": h}]]
             succ = succ + [[19, {"i": h}]]
             body = self.stmts(depth - 1, enclosing + [h], c)
+            if rng.random() < self.p_finish_inside and not (body and body[-1][0] == "raise"):
+                # finish() called as the last thing inside the action's own block (the block's exit then finishes again: no-op)
+                body = body + [["finish_again", h, self.exn() if rng.random() < 0.5 else None]]
             self.finished.append(h)
             return ["act", h, style, task, t, fs, sers, succ, body, api]
         if r < 0.62:
@@ -1199,15 +1212,6 @@ class Gen(object):
             return ["msg", t, self.fields(3, 32, 40), None, rng.choice(["log_message", "log_message", "Message.log", "Message.new"])]
         if r < 0.62 + self.p_raise:
             return ["raise", self.exn()]
-        if rng.random() < self.p_raw:
-            t = rng.randrange(10, 16)
-            if rng.random() < 0.7:
-                decl, logged = self.typed_fields(32, 40)
-            else:
-                decl, logged = None, self.fields(3, 32, 40)
-            if rng.random() < 0.9:
-                logged = logged + [[5, {"t": t}]]
-            return ["rawwrite", t, logged, decl]
         r2 = rng.random()
         if depth > 0 and r2 < self.p_try:
             return ["try", self.stmts(depth - 1, enclosing, c)]
